@@ -450,7 +450,7 @@ def evaluate(B, templates, prod, dname, fault, symm=True, form="frame", m=3, opt
                 got = {(int(a), int(b)): int(v) for a, b, v in zip(px.bin1_id, px.bin2_id, px["count"])}
                 ok = got == content and c.info["nbins"] == nb
                 o = opts or {}
-                if o.get("metadata") is not None and not (prod == "coarsen" and False):
+                if o.get("metadata") is not None:
                     ok = ok and c.info.get("metadata") == o["metadata"]
                 if o.get("assembly") is not None and prod != "merge":
                     ok = ok and c.info.get("genome-assembly") == o["assembly"]
